@@ -1,4 +1,5 @@
 import MemcVerif.Proofs.Cmds
+import MemcVerif.Proofs.Policy
 /-!
 # C06 — add / replace / append / prepend
 
@@ -161,6 +162,77 @@ theorem C06_rejected_absent_invisible_concat (s : MemStore) (now : Nat) (k k' : 
        · subst hk; simp [hv]
        · simp only [hk, if_false]; rw [vis_def])
 
+/-! ## Behind the eviction policy
+
+The conditional stores do not depend on memory: whatever the limit, the accounted usage and the victims the request's
+own eviction takes, the refusals are the same and store nothing, and an accepted append / prepend leaves old ++ suffix
+(prefix ++ old) with the item's flags — even when the request's own eviction removes the item between its read and its
+write. -/
+
+/-- add on a present key behind the policy: 'key exists', nothing changes (neither store nor accounting) -/
+theorem C06_add_present_under_policy (p : Policy) (now : Nat) (k : Key) (r x : Record) (h : p.inner.vis now k = some x) :
+    Cmd.add polOps p now k r = (p, .error .keyExists) := by
+  simp [Cmd.add, polOps, Policy.get, get_vis_some h]
+
+/-- replace / append / prepend on an absent key behind the policy: 'not found', the accounting is not charged and the key
+    stays absent -/
+theorem C06_absent_under_policy (p : Policy) (now : Nat) (k : Key) (r : Record) (h : p.inner.vis now k = none) :
+    ((Cmd.replace polOps p now k r).2 = .error .notFound ∧ (Cmd.replace polOps p now k r).1.usage = p.usage ∧
+      (Cmd.replace polOps p now k r).1.inner.mem.lookup k = none) ∧
+    ((Cmd.append polOps p now k r).2 = .error .notFound ∧ (Cmd.append polOps p now k r).1.usage = p.usage ∧
+      (Cmd.append polOps p now k r).1.inner.mem.lookup k = none) ∧
+    ((Cmd.prepend polOps p now k r).2 = .error .notFound ∧ (Cmd.prepend polOps p now k r).1.usage = p.usage ∧
+      (Cmd.prepend polOps p now k r).1.inner.mem.lookup k = none) := by
+  obtain ⟨h2, h3⟩ := get_vis_none h
+  simp only [Cmd.replace, Cmd.append, Cmd.prepend, polOps, Policy.get]
+  rcases hg : p.inner.get now k with ⟨s', res⟩
+  rw [hg] at h2 h3; simp only at h2 h3; subst h2
+  simp [h3]
+
+/-- add on an absent key behind the policy stores exactly the operand, under any limit -/
+theorem C06_add_absent_under_policy (p : Policy) (now : Nat) (k : Key) (v : Bytes) (f ttl : Nat)
+    (h : p.inner.vis now k = none) :
+    (Cmd.add polOps p now k (Record.new v 0 f ttl)).2 = .ok p.inner.casId ∧
+    (Cmd.add polOps p now k (Record.new v 0 f ttl)).1.inner.mem.lookup k = some ⟨⟨now, p.inner.casId, f, ttl⟩, v⟩ := by
+  obtain ⟨h2, _⟩ := get_vis_none h
+  have hc := get_casId p.inner now k
+  simp only [Cmd.add, polOps, Policy.get]
+  rcases hg : p.inner.get now k with ⟨s', res⟩
+  rw [hg] at h2 hc; simp only at h2 hc; subst h2
+  simp only
+  have hs := policy_set_cas0 { p with inner := s' } now k (Record.new v 0 f ttl) (by simp [Record.new, Meta.new])
+  rcases hx : Policy.set { p with inner := s' } now k (Record.new v 0 f ttl) with ⟨p', res'⟩
+  rw [hx] at hs; simp only at hs
+  obtain ⟨hs1, hs2⟩ := hs
+  subst hs1
+  simp [hs2, hc, stamp, Record.new, Meta.new]
+
+/-- append / prepend (no CAS) on a present key behind the policy: old ++ suffix resp. prefix ++ old with the item's flags
+    and TTL, under any limit and for every choice of victims -/
+theorem C06_concat_under_policy (p : Policy) (now : Nat) (k : Key) (operand : Bytes) (x : Record)
+    (h : p.inner.vis now k = some x) :
+    ((Cmd.append polOps p now k (Record.new operand 0 0 0)).2 = .ok p.inner.casId ∧
+     (Cmd.append polOps p now k (Record.new operand 0 0 0)).1.inner.mem.lookup k
+       = some ⟨⟨now, p.inner.casId, x.header.flags, x.header.ttl⟩, x.value ++ operand⟩) ∧
+    ((Cmd.prepend polOps p now k (Record.new operand 0 0 0)).2 = .ok p.inner.casId ∧
+     (Cmd.prepend polOps p now k (Record.new operand 0 0 0)).1.inner.mem.lookup k
+       = some ⟨⟨now, p.inner.casId, x.header.flags, x.header.ttl⟩, operand ++ x.value⟩) := by
+  have hg := get_vis_some h
+  simp only [Cmd.append, Cmd.prepend, polOps, Policy.get, hg]
+  constructor
+  · have hs := policy_set_cas0 p now k
+      { header := { x.header with cas := (Record.new operand 0 0 0).header.cas }, value := x.value ++ (Record.new operand 0 0 0).value }
+      (by simp [Record.new, Meta.new])
+    obtain ⟨hs1, hs2⟩ := hs
+    refine ⟨hs1, ?_⟩
+    rw [hs2]; simp [stamp, Record.new, Meta.new]
+  · have hs := policy_set_cas0 p now k
+      { header := { x.header with cas := (Record.new operand 0 0 0).header.cas }, value := (Record.new operand 0 0 0).value ++ x.value }
+      (by simp [Record.new, Meta.new])
+    obtain ⟨hs1, hs2⟩ := hs
+    refine ⟨hs1, ?_⟩
+    rw [hs2]; simp [stamp, Record.new, Meta.new]
+
 /-- the hypotheses are satisfiable: a store holding a live item -/
 example : (⟨[([1], ⟨⟨0, 1, 7, 0⟩, [65]⟩)], 2⟩ : MemStore).vis 5 [1] = some ⟨⟨0, 1, 7, 0⟩, [65]⟩ := by decide
 
@@ -176,3 +248,7 @@ end Memc
 #print axioms Memc.C06_rejected_unchanged
 #print axioms Memc.C06_rejected_absent_invisible
 #print axioms Memc.C06_rejected_absent_invisible_concat
+#print axioms Memc.C06_add_present_under_policy
+#print axioms Memc.C06_absent_under_policy
+#print axioms Memc.C06_add_absent_under_policy
+#print axioms Memc.C06_concat_under_policy
